@@ -537,3 +537,139 @@ Proof.
   intros T H. unfold decode, decode_new. rewrite T, String.eqb_refl.
   apply String.eqb_neq in H. rewrite H. reflexivity.
 Qed.
+
+(* ---------- stability: what the reader returns is a fixed point of write-then-read ---------- *)
+Lemma table_kind_repeat (ck : ckind) (sk : list ckind) :
+  table_kind ck (repeat (table_kind ck sk) (length sk)) = table_kind ck sk.
+Proof.
+  destruct (table_kind ck sk) eqn:E.
+  - destruct (table_kind_int ck sk E) as [-> _]. unfold table_kind.
+    induction (length sk); simpl; [reflexivity|]. rewrite IHn. reflexivity.
+  - destruct sk as [|k sk]; simpl in *; [assumption|]. unfold table_kind. simpl. reflexivity.
+Qed.
+
+Lemma wf_sub_weaken (r : region) (k tk : ckind) (s : string * region) :
+  wf_sub r k s -> (tk = KInt -> k = KInt) -> wf_sub r tk s.
+Proof.
+  intros (A & (B1 & B2 & B3) & C) Himp. split; [assumption|]. split; [|assumption].
+  split; [assumption|]. split; [assumption|]. intro E. apply B3. apply Himp. assumption.
+Qed.
+
+Lemma wf_subs_repeat (r : region) (tk : ckind) (sk : list ckind) (ss : list (string * region)) :
+  Forall2 (wf_sub r) sk ss -> (tk = KInt -> Forall (fun k => k = KInt) sk) ->
+  Forall2 (wf_sub r) (repeat tk (length ss)) ss.
+Proof.
+  intro H. induction H as [|k s sk ss Hw _ IH]; intro Himp; simpl; constructor.
+  - apply (wf_sub_weaken r k tk s Hw). intro E. specialize (Himp E). inversion Himp; assumption.
+  - apply IH. intro E. specialize (Himp E). inversion Himp; assumption.
+Qed.
+
+Lemma canon_wf {V} (conv : V -> V) (f : fstate V) : wf_field f -> wf_field (canon conv f).
+Proof.
+  intros (A & B & C & D & E & F & G & H & I & J). unfold wf_field, canon. simpl.
+  repeat (split; [assumption|]). split; [|split; assumption].
+  apply (wf_subs_repeat _ _ _ _ H). intro E'. apply (table_kind_int _ _ E').
+Qed.
+
+Lemma canon_idempotent {V} (conv : V -> V) (f : fstate V) :
+  Forall2 (wf_sub (reg (f_mesh f))) (f_subk f) (subs (f_mesh f)) ->
+  canon conv (canon conv f) = canon conv f.
+Proof.
+  intro H. unfold canon. simpl.
+  rewrite <- (Forall2_length' H). rewrite table_kind_repeat.
+  destruct (f_dk f); reflexivity.
+Qed.
+
+(* reading the file written from a read-back field returns that field again, exactly *)
+Theorem second_generation {V} (conv : V -> V) (f : fstate V) :
+  wf_field f -> f_unit f <> Some none_marker ->
+  decode conv (NewFile (encode (canon conv f))) = OK (canon conv f).
+Proof.
+  intros W U. rewrite (roundtrip conv (canon conv f) (canon_wf conv f W) U).
+  f_equal. apply canon_idempotent. destruct W as (_ & _ & _ & _ & _ & _ & _ & H & _). exact H.
+Qed.
+
+(* ---------- soundness of the decidable well-formedness test ---------- *)
+Lemma is_int_sound (x : Q) : is_int x = true -> integral x.
+Proof.
+  destruct x as [a d]. unfold is_int. intro H. apply Pos.eqb_eq in H. simpl in H. subst d.
+  exists a. reflexivity.
+Qed.
+
+Lemma forallb_is_int (l : list Q) : forallb is_int l = true -> Forall integral l.
+Proof.
+  induction l; simpl; intro H; constructor; apply andb_true_iff in H; destruct H;
+    auto using is_int_sound.
+Qed.
+
+Lemma forallb2_ltb_sound (lo hi : list Q) : forallb2 Qltb lo hi = true -> Forall2 (fun a b => a < b) lo hi.
+Proof.
+  revert hi. induction lo as [|a lo IH]; destruct hi as [|b hi]; simpl; intro H; try discriminate; constructor.
+  - apply andb_true_iff in H. destruct H as [H _]. unfold Qltb in H. apply negb_true_iff in H.
+    apply Qnot_le_lt. intro L. apply Qle_bool_iff in L. congruence.
+  - apply IH. apply andb_true_iff in H. tauto.
+Qed.
+
+Lemma strlist_eqb_sound (a b : list string) : strlist_eqb a b = true -> a = b.
+Proof.
+  unfold strlist_eqb. revert b. induction a as [|x a IH]; destruct b as [|y b]; simpl; intro H;
+    try discriminate; [reflexivity|].
+  apply andb_true_iff in H. destruct H as [H1 H2]. apply String.eqb_eq in H1. f_equal; auto.
+Qed.
+
+Lemma Qsame_sound (a b : Q) : Qsame a b = true -> a = b.
+Proof.
+  destruct a, b. unfold Qsame. simpl. intro H. apply andb_true_iff in H. destruct H as [H1 H2].
+  apply Z.eqb_eq in H1. apply Pos.eqb_eq in H2. congruence.
+Qed.
+
+Lemma wf_cornersb_sound (k : ckind) (lo hi : list Q) : wf_cornersb k lo hi = true -> wf_corners k lo hi.
+Proof.
+  unfold wf_cornersb, wf_corners. intro H.
+  apply andb_true_iff in H. destruct H as [H H3]. apply andb_true_iff in H. destruct H as [H1 H2].
+  split; [apply Nat.eqb_eq; assumption|]. split; [apply forallb2_ltb_sound; assumption|].
+  intro E. subst k. apply andb_true_iff in H3. destruct H3. split; apply forallb_is_int; assumption.
+Qed.
+
+Lemma wf_subb_sound (r : region) (k : ckind) (s : string * region) : wf_subb r k s = true -> wf_sub r k s.
+Proof.
+  unfold wf_subb, wf_sub. intro H.
+  repeat (let X := fresh "X" in apply andb_true_iff in H; destruct H as [H X]).
+  split; [apply Nat.eqb_eq; assumption|]. split; [apply wf_cornersb_sound; assumption|].
+  split; [apply strlist_eqb_sound; assumption|]. split; [apply strlist_eqb_sound; assumption|].
+  apply Qsame_sound; assumption.
+Qed.
+
+Lemma forallb2_Forall2 {A B} (p : A -> B -> bool) (P : A -> B -> Prop) :
+  (forall a b, p a b = true -> P a b) -> forall l1 l2, forallb2 p l1 l2 = true -> Forall2 P l1 l2.
+Proof.
+  intros Hp. induction l1 as [|a l1 IH]; destruct l2 as [|b l2]; simpl; intro H; try discriminate;
+    constructor; apply andb_true_iff in H; destruct H; auto.
+Qed.
+
+Lemma forallb_pos_sound (l : list Z) : forallb (fun k => (0 <? k)%Z) l = true -> Forall (fun k => 0 < k)%Z l.
+Proof.
+  induction l; simpl; intro H; constructor; apply andb_true_iff in H; destruct H; auto.
+  apply Z.ltb_lt. assumption.
+Qed.
+
+Theorem wf_fieldb_sound {V} (f : fstate V) : wf_fieldb f = true -> wf_field f.
+Proof.
+  unfold wf_fieldb, wf_field. intro H.
+  repeat (let X := fresh "X" in apply andb_true_iff in H; destruct H as [H X]).
+  split.
+  { split; [apply Nat.eqb_eq; exact H|]. split; [apply forallb2_ltb_sound; exact X9|].
+    intro E. rewrite E in X8. apply andb_true_iff in X8. destruct X8.
+    split; apply forallb_is_int; assumption. }
+  split; [apply (proj1 (Nat.ltb_lt _ _)); assumption|].
+  split; [apply Nat.eqb_eq; assumption|]. split; [assumption|].
+  split; [apply Nat.eqb_eq; assumption|]. split; [apply Nat.eqb_eq; assumption|].
+  split; [apply forallb_pos_sound; assumption|].
+  split; [apply (forallb2_Forall2 _ _ (wf_subb_sound (reg (f_mesh f)))); assumption|].
+  split; [apply Z.leb_le; assumption|].
+  destruct (f_vdims f) as [l|].
+  - repeat (let Y := fresh "Y" in apply andb_true_iff in X; destruct X as [X Y]).
+    split; [|split; [apply Z.eqb_eq; assumption | assumption]].
+    intro E. subst l. discriminate.
+  - apply Z.eqb_eq. assumption.
+Qed.
